@@ -371,10 +371,17 @@ def r_iter_views(ctx, db, est, ln, consts=None):
         out = []
         import summaries as S
         cell = Cell(itv)
+        nref = {"fn": "core::iter::traits::iterator::Iterator::next", "trait": ITER, "name": "next"}
         for _ in range(maxn + 2):
-            o = S.iter_next(m, {"fn": "core::iter::traits::iterator::Iterator::next", "trait": ITER, "name": "next"},
-                            [VRef(cell, (), True)], None, None)
+            o = S.iter_next(m, nref, [VRef(cell, (), True)], None, None)
             if o.variant == 0:
+                # "exactly LEN items": polled again after the end, the iterator stays exhausted (and
+                # does not panic: a panic ends the path and is reported by the caller)
+                for _again in range(2):
+                    o2 = S.iter_next(m, nref, [VRef(cell, (), True)], None, None)
+                    if o2.variant != 0:
+                        out.append(o2.fields[0])
+                        return out, False
                 return out, True
             out.append(o.fields[0])
         return out, False
